@@ -156,6 +156,45 @@ def element_correspondence(ctx, rep, R):
         raise MechanismMissing(R, "fewer than 3 attribute element accesses found in the ndindex loop of _expand_vectors")
 
 
+def scalar_attributes_verbatim(ctx, rep, R):
+    """_expand_vectors: an attribute value that is not an array is handed to every scalar element as the object it is"""
+    fn = ctx.func(MODEL, "Model._expand_vectors", R)
+    n = 0
+    for lp in ast.walk(fn):
+        if isinstance(lp, ast.For) and "np.ndindex(" in norm(lp.iter) and any("CASADI_ATTRIBUTES" in norm(x) for x in ast.walk(lp)):
+            srcs = {x.targets[0].id for x in ast.walk(lp) if isinstance(x, ast.Assign) and isinstance(x.targets[0], ast.Name)
+                    and isinstance(x.value, ast.Call) and is_name(x.value.func, "getattr")}
+            dsts = {c.args[2].id for c in ast.walk(lp) if isinstance(c, ast.Call) and is_name(c.func, "setattr") and len(c.args) == 3 and isinstance(c.args[2], ast.Name)}
+            direct = [c for c in ast.walk(lp) if isinstance(c, ast.Call) and is_name(c.func, "setattr") and len(c.args) == 3 and not isinstance(c.args[2], ast.Name)]
+            for x in ast.walk(lp):
+                if isinstance(x, ast.Assign) and isinstance(x.targets[0], ast.Name) and x.targets[0].id in dsts and not isinstance(x.value, ast.Subscript):
+                    n += 1
+                    v = x.value
+                    ok = (isinstance(v, ast.Name) and v.id in (srcs | dsts)) or (
+                        isinstance(v, ast.Call) and norm(v.func).endswith(".python_type") and len(v.args) == 1 and isinstance(v.args[0], ast.Name) and v.args[0].id in dsts)
+                    rep.ob(R, SITE, "`%s` hands the value on unchanged" % norm(x)[:60], ok,
+                           "the attribute value given to the scalar elements is `%s`, not the value itself: a start value that stands for `no start "
+                           "declared` is an instance of a marker class, and a conversion returns a plain number — every element then looks as if it "
+                           "had an explicit start" % norm(v)[:60])
+            for c in direct:
+                n += 1
+                v = c.args[2]
+                ok = isinstance(v, ast.Subscript) or (isinstance(v, ast.Name) and v.id in srcs)
+                rep.ob(R, SITE, "`%s` hands the value on unchanged" % norm(c)[:60], ok, "the attribute value given to the scalar elements is `%s`" % norm(v)[:60])
+    if n < 2:
+        raise MechanismMissing(R, "fewer than 2 non-indexed attribute assignments found in the ndindex loop of _expand_vectors")
+
+
+@SPEC.rule(
+    "R18.10",
+    "attribute values that are not arrays reach every scalar element as they are: in the ndindex loop of _expand_vectors the value set on "
+    "the new variable is the old variable's attribute itself, an element of it, or that element converted with the variable's own python_type "
+    "— nothing else (no float(), .item(), np.asarray round trip)",
+)
+def r18_10(ctx, rep):
+    scalar_attributes_verbatim(ctx, rep, "R18.10")
+
+
 @SPEC.rule(
     "R18.5",
     "expanded => substituted: on every path on which _expand_vectors replaces a variable by its scalar elements (the elements are "
